@@ -19,6 +19,8 @@ for n in range(1, L + 1):
             SEQS.append(seq)
 if FIRST is not None and L == 0:
     SEQS = [()]
+if PARAMS.get('part') is not None:       # further parallel split of a heavy (first operator, length) cell
+    SEQS = SEQS[PARAMS['part']::PARAMS.get('nparts', 1)]
 NSEQ = len(SEQS)
 
 
